@@ -33,6 +33,7 @@ import (
 	"github.com/DataDog/datadog-traceroute/result"
 	"github.com/DataDog/datadog-traceroute/tcp"
 	"github.com/DataDog/datadog-traceroute/udp"
+	"github.com/google/gopacket/layers"
 )
 
 // inNetns runs fn on a goroutine whose OS thread has been moved into a fresh network namespace (loopback up,
@@ -367,6 +368,7 @@ func checkSink(t *testing.T, c *sinkCase, rec *Recorder) []Diff {
 	}
 	slowest := time.Duration(0)
 	onWire := 0
+	stuck := false
 	err := inNetns(setup, func() error {
 		lo := netip.MustParseAddr("127.0.0.1")
 		hold, err := net.ListenUDP("udp4", &net.UDPAddr{IP: lo.AsSlice(), Port: 40009})
@@ -386,7 +388,18 @@ func checkSink(t *testing.T, c *sinkCase, rec *Recorder) []Diff {
 		for i := 0; i < c.Packets; i++ {
 			pkt := rawUDP4(lo, lo, 40010, 40009, uint16(i+1), []byte(fmt.Sprintf("probe-%d", i)))
 			t0 := time.Now()
-			err := sink.WriteTo(pkt, netip.AddrPortFrom(lo, 40009))
+			done := make(chan error, 1)
+			go func() { done <- sink.WriteTo(pkt, netip.AddrPortFrom(lo, 40009)) }()
+			var err error
+			select {
+			case err = <-done:
+			case <-time.After(15 * time.Second):
+				now, _ := loTxPackets()
+				add("write-never-returns", "WriteTo of packet #%d of %d on %q has not returned after 15 s; the device has transmitted %d packets for %d writes", i, c.Packets, c.Shape, now-before, i+1)
+				ds = append(ds, Diff{"C06", "probe-sent-repeatedly", fmt.Sprintf("write #%d of %d on %q never returned and the device transmitted %d packets for %d probes: a probe went out more than once", i, c.Packets, c.Shape, now-before, i+1)})
+				stuck = true
+				return nil
+			}
 			if d := time.Since(t0); d > slowest {
 				slowest = d
 			}
@@ -414,6 +427,13 @@ func checkSink(t *testing.T, c *sinkCase, rec *Recorder) []Diff {
 	}
 	if len(ds) == 0 && onWire < c.Packets {
 		add("packets-missing", "%d WriteTo calls returned nil on %q but the device transmitted %d packets within 10 s", c.Packets, c.Shape, onWire)
+	}
+	if !stuck && len(ds) == 0 {
+		// nothing else transmits in this namespace: more packets than writes means a probe left more than once
+		time.Sleep(50 * time.Millisecond)
+		if onWire > c.Packets {
+			ds = append(ds, Diff{"C06", "probe-sent-repeatedly", fmt.Sprintf("%d probes were written on %q but the device transmitted %d packets", c.Packets, c.Shape, onWire)})
+		}
 	}
 	rec.CaseEnumerated(slowest > 5*time.Millisecond, map[string]any{"case": c, "slowest_write_ms": float64(slowest) / 1e6, "packets_transmitted_by_device": onWire}, "shape:"+c.Shape, fmt.Sprintf("blocked:%v", slowest > 5*time.Millisecond))
 	return ds
@@ -468,6 +488,7 @@ func checkSendErr(t *testing.T, c *sendErrCase, rec *Recorder) []Diff {
 		err     error
 		fdDelta int
 		fds     string
+		elapsed time.Duration
 	}
 	done := make(chan outcome, 1)
 	infra := make(chan error, 1)
@@ -476,6 +497,7 @@ func checkSendErr(t *testing.T, c *sendErrCase, rec *Recorder) []Diff {
 			target := netip.MustParseAddr("10.9.7.7")
 			before := countFds()
 			var o outcome
+			begin := time.Now()
 			switch c.Variant {
 			case "udp4":
 				o.run, o.err = udp.NewUDPv4(net.IP(target.AsSlice()), 33434, 1, uint8(c.MaxTTL), 2*time.Millisecond, 150*time.Millisecond, false).Traceroute()
@@ -485,6 +507,7 @@ func checkSendErr(t *testing.T, c *sendErrCase, rec *Recorder) []Diff {
 				o.run, o.err = icmp.RunICMPTraceroute(context.Background(), icmp.Params{Target: target, ParallelParams: common.TracerouteParallelParams{TracerouteParams: common.TracerouteParams{
 					MinTTL: 1, MaxTTL: uint8(c.MaxTTL), TracerouteTimeout: 150 * time.Millisecond, PollFrequency: 20 * time.Millisecond, SendDelay: 2 * time.Millisecond}}})
 			}
+			o.elapsed = time.Since(begin)
 			o.fdDelta = countFds() - before
 			if o.fdDelta > 0 {
 				o.fds = listFds()
@@ -496,6 +519,9 @@ func checkSendErr(t *testing.T, c *sendErrCase, rec *Recorder) []Diff {
 	select {
 	case o := <-done:
 		<-infra
+		if o.elapsed > 2*time.Second {
+			ds = append(ds, Diff{"C08", "run-exceeds-bound", fmt.Sprintf("%s: the run whose probe with TTL %d the kernel refused took %v (timeout 150 ms, %d TTLs)", c.Variant, c.FailTTL, o.elapsed, c.MaxTTL)})
+		}
 		switch {
 		case o.err == nil:
 			add("send-error-lost", "%s: the kernel refused the probe with TTL %d (EPERM) but the run returned a result and no error", c.Variant, c.FailTTL)
@@ -520,6 +546,7 @@ func checkSendErr(t *testing.T, c *sendErrCase, rec *Recorder) []Diff {
 		}
 	case <-time.After(10 * time.Second):
 		add("run-never-returns", "%s: the kernel refused the probe with TTL %d (EPERM); 10 s later the run (timeout 150 ms, %d TTLs) has still not returned", c.Variant, c.FailTTL, c.MaxTTL)
+		ds = append(ds, Diff{"C08", "run-exceeds-bound", fmt.Sprintf("%s: the kernel refused the probe with TTL %d (EPERM); the run (timeout 150 ms, %d TTLs, bound below 1 s) has not returned after 10 s", c.Variant, c.FailTTL, c.MaxTTL)})
 		rec.CaseEnumerated(true, map[string]any{"case": c, "err": "never returned"}, "variant:"+c.Variant)
 	}
 	return ds
@@ -546,6 +573,635 @@ func TestC10KernelSendError(t *testing.T) {
 				t.Fatalf("%s", d.Msg)
 			}
 		}
+		return ds
+	})
+}
+
+// TestC08KernelSendError: the same runs judged for C08: a probe the kernel refuses must not keep the run from ending.
+func TestC08KernelSendError(t *testing.T) {
+	rec := NewRecorder("C08", "C08KernelSendError", "enumeration on the real kernel (private network namespace, real raw sink and capture handle): udp, icmp and tcp-syn runs (timeout 150 ms, 4 TTLs) towards a target for which the namespace's packet filter refuses exactly the probe with TTL k (sendto fails with EPERM), k in {1, 2, 4}; oracle: the run returns within 2 s of real time (its bound is below 1 s); non-trivial always")
+	rec.Exhaustive = true
+	RunCases(t, rec, func(yield func(*sendErrCase) bool) {
+		for _, v := range []string{"udp4", "icmp4", "tcp"} {
+			for _, k := range []int{1, 2, 4} {
+				if !yield(&sendErrCase{Variant: v, FailTTL: k, MaxTTL: 4}) {
+					return
+				}
+			}
+		}
+	}, func(t *testing.T, c *sendErrCase, rec *Recorder) []Diff {
+		ds := checkSendErr(t, c, rec)
+		for _, d := range ds {
+			if d.Sig == "harness-infra" {
+				fmt.Println(d.Msg)
+				t.Fatalf("%s", d.Msg)
+			}
+		}
+		return ds
+	})
+}
+
+// ---- frames as the real capture handle delivers them (C09, C07) ----
+
+// loInjector writes raw Ethernet frames to the namespace's loopback device through a packet socket of its own, so
+// that IP headers can say anything (a raw IP socket would correct the length and checksum fields).
+type loInjector struct{ fd int }
+
+func newLoInjector() (*loInjector, error) {
+	fd, err := syscall.Socket(syscall.AF_PACKET, syscall.SOCK_RAW, int(htons16(syscall.ETH_P_ALL)))
+	if err != nil {
+		return nil, err
+	}
+	return &loInjector{fd}, nil
+}
+
+func htons16(v uint16) uint16 { return v<<8 | v>>8 }
+
+func (l *loInjector) send(ip []byte) error { return l.sendMAC(ip, nil, nil) }
+
+// sendMAC writes the packet in a frame with the given destination and source MAC addresses (nil: all zero, as on lo).
+func (l *loInjector) sendMAC(ip, dst, src []byte) error {
+	ifi, err := net.InterfaceByName("lo")
+	if err != nil {
+		return err
+	}
+	frame := make([]byte, 14, 14+len(ip))
+	copy(frame[0:6], dst)
+	copy(frame[6:12], src)
+	et := uint16(0x0800)
+	if len(ip) > 0 && ip[0]>>4 == 6 {
+		et = 0x86dd
+	}
+	binary.BigEndian.PutUint16(frame[12:], et)
+	frame = append(frame, ip...)
+	return syscall.Sendto(l.fd, frame, 0, &syscall.SockaddrLinklayer{Protocol: htons16(et), Ifindex: ifi.Index, Halen: 6})
+}
+
+func (l *loInjector) close() { syscall.Close(l.fd) }
+
+type frameLenCase struct {
+	Captured int  `json:"ip_bytes_on_the_wire"` // length of the IP packet in the frame
+	Claimed  int  `json:"total_length_field"`
+	V6       bool `json:"v6,omitempty"`
+}
+
+func hostileICMP(c *frameLenCase) []byte {
+	n := c.Captured
+	if c.V6 {
+		if n < 40 {
+			n = 40
+		}
+		b := make([]byte, n)
+		b[0], b[6], b[7] = 0x60, 58, 64
+		binary.BigEndian.PutUint16(b[4:], uint16(c.Claimed))
+		b[23], b[39] = 1, 1 // ::1 -> ::1
+		if n > 40 {
+			b[40] = 129 // echo reply
+		}
+		return b
+	}
+	if n < 20 {
+		n = 20
+	}
+	b := make([]byte, n)
+	b[0], b[8], b[9] = 0x45, 64, 1
+	binary.BigEndian.PutUint16(b[2:], uint16(c.Claimed))
+	copy(b[12:], []byte{127, 0, 0, 1, 127, 0, 0, 1})
+	binary.BigEndian.PutUint16(b[10:], ^csum16(b[:20]))
+	return b
+}
+
+// TestC09KernelFrames: hostile length fields and frame sizes around the drivers' 1024-byte read buffer, delivered
+// by the real capture handle (Ethernet header stripping included, which a simulated handle never runs).
+func TestC09KernelFrames(t *testing.T) {
+	rec := NewRecorder("C09", "C09KernelFrames", "enumeration on the real kernel (private network namespace): ICMP frames written to the loopback device through a packet socket with IP packet sizes {20, 28, 60, 996..1040, 1500, 4000} x total-length fields {0, 19, 20, size-1, size, size+1, size+14, 1010, 1011, 1024, 1025, 65535} (IPv4 and IPv6 payload-length analogues), read through the real AF_PACKET handle with the ICMP filter into a 1024-byte buffer by packets.ReadAndParse; oracle: no panic, and every outcome is a parsed packet or a retryable error (never a fatal one); non-trivial = the length field disagrees with the frame or the frame exceeds the buffer")
+	rec.Exhaustive = true
+	var cases []*frameLenCase
+	sizes := []int{20, 28, 60, 1500, 4000}
+	for s := 996; s <= 1040; s++ {
+		sizes = append(sizes, s)
+	}
+	for _, v6 := range []bool{false, true} {
+		for _, s := range sizes {
+			for _, cl := range []int{0, 19, 20, s - 1, s, s + 1, s + 14, 1010, 1011, 1024, 1025, 65535} {
+				if cl < 0 || cl > 65535 {
+					continue
+				}
+				cases = append(cases, &frameLenCase{Captured: s, Claimed: cl, V6: v6})
+			}
+		}
+	}
+	defer rec.Flush()
+	if replayIfRequested(t, rec, func(t *testing.T, c *frameLenCase, rec *Recorder) []Diff { return checkFrameLens(t, []*frameLenCase{c}, rec) }) {
+		return
+	}
+	ds := filterDiffs("C09", checkFrameLens(t, cases, rec), rec)
+	for _, d := range ds {
+		t.Errorf("%s", d)
+	}
+}
+
+func checkFrameLens(t *testing.T, cases []*frameLenCase, rec *Recorder) []Diff {
+	var ds []Diff
+	err := inNetns(nil, func() error {
+		src, err := packets.NewAFPacketSource()
+		if err != nil {
+			return fmt.Errorf("harness-infra: %v", err)
+		}
+		defer src.Close()
+		if err := src.SetPacketFilter(packets.PacketFilterSpec{FilterType: packets.FilterTypeICMP}); err != nil {
+			return fmt.Errorf("harness-infra: %v", err)
+		}
+		inj, err := newLoInjector()
+		if err != nil {
+			return fmt.Errorf("harness-infra: %v", err)
+		}
+		defer inj.close()
+		parser := packets.NewFrameParser()
+		buf := make([]byte, 1024)
+		for _, c := range cases {
+			pkt := hostileICMP(c)
+			if err := inj.send(pkt); err != nil {
+				return fmt.Errorf("harness-infra: inject: %v", err)
+			}
+			// the frame shows up once or twice (outgoing and looped back): read until the handle is quiet
+			for {
+				src.SetReadDeadline(time.Now().Add(5 * time.Millisecond))
+				var perr error
+				panicked := ""
+				func() {
+					defer func() {
+						if r := recover(); r != nil {
+							panicked = fmt.Sprint(r)
+						}
+					}()
+					perr = packets.ReadAndParse(src, buf, parser)
+				}()
+				if panicked != "" {
+					ds = append(ds, Diff{"C09", "crash", fmt.Sprintf("reading a frame with %d bytes of IP packet whose length field says %d (v6=%v) through the real capture handle panicked: %s", len(pkt), c.Claimed, c.V6, panicked)})
+					writeFailure("C09", t.Name(), c, ds)
+					rec.Violations++
+					return nil
+				}
+				var none *common.ReceiveProbeNoPktError
+				if errors.As(perr, &none) {
+					break
+				}
+				if perr != nil && !common.CheckProbeRetryable("ReadAndParse", perr) {
+					ds = append(ds, Diff{"C09", "fatal-on-hostile-frame", fmt.Sprintf("a frame with %d bytes of IP packet whose length field says %d (v6=%v) made ReadAndParse return a fatal error: %v", len(pkt), c.Claimed, c.V6, perr)})
+					writeFailure("C09", t.Name(), c, ds)
+					rec.Violations++
+					return nil
+				}
+			}
+			rec.CaseEnumerated(c.Claimed != len(pkt) || len(pkt) > 1010, nil, fmt.Sprintf("v6:%v", c.V6))
+		}
+		return nil
+	})
+	if err != nil {
+		fmt.Println(err)
+		t.Fatalf("%v", err)
+	}
+	return ds
+}
+
+// TestC07KernelBurst: replies that reach the real capture handle in a burst, before the receiver reads for the first
+// time (the parallel engine only starts reading once its first probe is out, and may be descheduled at any time),
+// are all there when it does read: what the engine is given must not depend on when it reads.
+func TestC07KernelBurst(t *testing.T) {
+	rec := NewRecorder("C07", "C07KernelBurst", "enumeration on the real kernel (private network namespace, real AF_PACKET handle with the ICMP filter): bursts of 1, 10, 30, 60 matching frames (as many replies as a 30-TTL run with duplicates can have in flight) written before the first read; oracle: every frame of the burst is returned by the reads that follow; non-trivial = burst >= 10")
+	rec.Exhaustive = true
+	type burst struct {
+		N int `json:"frames"`
+	}
+	RunCases(t, rec, func(yield func(*burst) bool) {
+		for _, n := range []int{1, 10, 30, 60} {
+			if !yield(&burst{n}) {
+				return
+			}
+		}
+	}, func(t *testing.T, c *burst, rec *Recorder) []Diff {
+		var ds []Diff
+		got := 0
+		err := inNetns(nil, func() error {
+			src, err := packets.NewAFPacketSource()
+			if err != nil {
+				return fmt.Errorf("harness-infra: %v", err)
+			}
+			defer src.Close()
+			if err := src.SetPacketFilter(packets.PacketFilterSpec{FilterType: packets.FilterTypeICMP}); err != nil {
+				return fmt.Errorf("harness-infra: %v", err)
+			}
+			inj, err := newLoInjector()
+			if err != nil {
+				return fmt.Errorf("harness-infra: %v", err)
+			}
+			defer inj.close()
+			for i := 0; i < c.N; i++ {
+				p := hostileICMP(&frameLenCase{Captured: 56, Claimed: 56})
+				binary.BigEndian.PutUint16(p[4:], uint16(i+1)) // IP ID numbers the frame
+				binary.BigEndian.PutUint16(p[10:], 0)
+				binary.BigEndian.PutUint16(p[10:], ^csum16(p[:20]))
+				if err := inj.send(p); err != nil {
+					return fmt.Errorf("harness-infra: inject: %v", err)
+				}
+			}
+			time.Sleep(20 * time.Millisecond)
+			frames, err := readAll(src, 100*time.Millisecond)
+			if err != nil {
+				return fmt.Errorf("harness-infra: read: %v", err)
+			}
+			ids := map[uint16]bool{}
+			for _, f := range frames {
+				if len(f) >= 20 {
+					ids[binary.BigEndian.Uint16(f[4:])] = true
+				}
+			}
+			for i := 1; i <= c.N; i++ {
+				if ids[uint16(i)] {
+					got++
+				}
+			}
+			return nil
+		})
+		if err != nil {
+			fmt.Println(err)
+			t.Fatalf("%v", err)
+		}
+		if got < c.N {
+			ds = append(ds, Diff{"C07", "burst-lost", fmt.Sprintf("%d matching frames reached the capture handle before the first read; the reads that followed returned %d of them", c.N, got)})
+		}
+		rec.CaseEnumerated(c.N >= 10, map[string]any{"frames": c.N, "returned": got}, fmt.Sprintf("burst:%d", c.N))
+		return ds
+	})
+}
+
+// TestC10KernelFilterNoMem: the kernel refuses to install the capture filter (socket option memory exhausted,
+// net.core.optmem_max of the namespace): the run must fail with that cause, not go on behind whatever filter is
+// in place. For every limit the outcome is either an error that wraps ENOMEM or a run that works.
+func TestC10KernelFilterNoMem(t *testing.T) {
+	rec := NewRecorder("C10", "C10KernelFilterNoMem", "enumeration on the real kernel (private network namespace): udp and icmp runs to the loopback address (which answers) with net.core.optmem_max in {0, 64, 100, 144, 160, 200, 300, 600, 131072}, so that attaching the first, the second or no capture filter program fails with ENOMEM; oracle: the run either returns no result and an error wrapping ENOMEM, or a result whose last hop is the destination (as the unrestricted control run does), and leaves no descriptor open; non-trivial = the filter could not be installed")
+	rec.Exhaustive = true
+	type memCase struct {
+		Variant string `json:"variant"`
+		OptMem  int    `json:"optmem_max"`
+	}
+	RunCases(t, rec, func(yield func(*memCase) bool) {
+		for _, v := range []string{"udp4", "icmp4"} {
+			for _, m := range []int{131072, 0, 64, 100, 144, 160, 200, 300, 600} {
+				if !yield(&memCase{v, m}) {
+					return
+				}
+			}
+		}
+	}, func(t *testing.T, c *memCase, rec *Recorder) []Diff {
+		var ds []Diff
+		var run *result.TracerouteRun
+		var rerr error
+		fdDelta := 0
+		err := inNetns([]string{fmt.Sprintf("sysctl -qw net.core.optmem_max=%d", c.OptMem)}, func() error {
+			target := netip.MustParseAddr("127.0.0.1")
+			before := countFds()
+			switch c.Variant {
+			case "udp4":
+				run, rerr = udp.NewUDPv4(net.IP(target.AsSlice()), 33434, 1, 3, 2*time.Millisecond, 200*time.Millisecond, false).Traceroute()
+			case "icmp4":
+				run, rerr = icmp.RunICMPTraceroute(context.Background(), icmp.Params{Target: target, ParallelParams: common.TracerouteParallelParams{TracerouteParams: common.TracerouteParams{
+					MinTTL: 1, MaxTTL: 3, TracerouteTimeout: 200 * time.Millisecond, PollFrequency: 20 * time.Millisecond, SendDelay: 2 * time.Millisecond}}})
+			}
+			fdDelta = countFds() - before
+			return nil
+		})
+		if err != nil {
+			fmt.Println(err)
+			t.Fatalf("%v", err)
+		}
+		refused := false
+		switch {
+		case rerr != nil && run != nil:
+			ds = append(ds, Diff{"C10", "result-and-error", fmt.Sprintf("%s optmem_max=%d: both a result and the error %v", c.Variant, c.OptMem, rerr)})
+		case rerr != nil:
+			refused = errors.Is(rerr, syscall.ENOMEM)
+			if !refused {
+				ds = append(ds, Diff{"C10", "cause-lost", fmt.Sprintf("%s optmem_max=%d: the run failed with %v, which does not wrap ENOMEM", c.Variant, c.OptMem, rerr)})
+			}
+		default:
+			last := run.Hops[len(run.Hops)-1]
+			if last == nil || !last.IsDest {
+				ds = append(ds, Diff{"C10", "failure-swallowed", fmt.Sprintf("%s optmem_max=%d: the run reports success but never saw the destination that answers the control run on the same path (hops %d, last %+v): it went on behind a capture filter that could not be installed", c.Variant, c.OptMem, len(run.Hops), last)})
+			}
+		}
+		if fdDelta > 0 {
+			ds = append(ds, Diff{"C10", "descriptor-leak", fmt.Sprintf("%s optmem_max=%d: %d socket descriptors more after the run: %s", c.Variant, c.OptMem, fdDelta, listFds())})
+		}
+		rec.CaseEnumerated(refused, map[string]any{"case": c, "err": fmt.Sprint(rerr)}, "variant:"+c.Variant, fmt.Sprintf("filter_refused:%v", refused))
+		return ds
+	})
+}
+
+// TestC06KernelSink: the same writes judged for C06: every probe leaves exactly once, also when the socket's send
+// buffer is full and the write has to be retried.
+func TestC06KernelSink(t *testing.T) {
+	rec := NewRecorder("C06", "C06KernelSink", "enumeration on the real kernel (private network namespace): the raw sink writes 50..1200 distinct probes back to back to a loopback device that is unshaped or rate-limited (token bucket: the send buffer fills, sendto reports EAGAIN and is retried); oracle: every write returns and the device transmits exactly one packet per probe; non-trivial = at least one write had to wait (> 5 ms)")
+	rec.Exhaustive = true
+	RunCases(t, rec, func(yield func(*sinkCase) bool) {
+		for _, sh := range []string{"", "tbf rate 2mbit burst 1600 limit 10000000"} {
+			for _, n := range []int{50, 400, 1200} {
+				if !yield(&sinkCase{Shape: sh, Packets: n}) {
+					return
+				}
+			}
+		}
+	}, func(t *testing.T, c *sinkCase, rec *Recorder) []Diff {
+		ds := checkSink(t, c, rec)
+		for _, d := range ds {
+			if d.Sig == "harness-infra" {
+				fmt.Println(d.Msg)
+				t.Fatalf("%s", d.Msg)
+			}
+		}
+		return ds
+	})
+}
+
+// ---- what the real capture handle hands to the parsers (C01, C04) ----
+
+type readCase struct {
+	Name   string `json:"name"`
+	Frames []struct {
+		IPLen int `json:"ip_bytes"` // bytes of IP packet present in the frame
+		Claim int `json:"total_length_field"`
+		Pad   int `json:"padding"` // zero bytes after the IP packet (Ethernet minimum-size padding)
+	} `json:"frames"`
+}
+
+// TestC01KernelReadExact: a hop must rest on a frame that arrived. The capture handle hands each frame to the parsers
+// as it arrived: the bytes after the link header, nothing left over from an earlier (longer) frame.
+func TestC01KernelReadExact(t *testing.T) {
+	rec := NewRecorder("C01", "C01KernelReadExact", "enumeration on the real kernel (private network namespace, real AF_PACKET handle, ICMP filter, 1024-byte read buffer): sequences of ICMP frames of sizes long -> short -> shorter -> long (28..1200 bytes of IP packet), with length fields that agree, claim more than arrived, or less, and with Ethernet padding; oracle: every Read returns exactly the bytes of that frame after the link header (up to the buffer size), never bytes of an earlier frame; non-trivial = a frame shorter than its predecessor")
+	rec.Exhaustive = true
+	type seqCase struct {
+		Sizes  []int `json:"ip_bytes"`
+		Claims []int `json:"total_length_fields"` // 0 = agrees with the size
+		Pads   []int `json:"padding"`
+	}
+	RunCases(t, rec, func(yield func(*seqCase) bool) {
+		for _, c := range []*seqCase{
+			{Sizes: []int{96, 28, 28, 96}, Claims: []int{0, 0, 96, 0}, Pads: []int{0, 0, 0, 0}},
+			{Sizes: []int{600, 56, 28, 1200, 40}, Claims: []int{0, 600, 56, 0, 1200}, Pads: []int{0, 0, 0, 0, 0}},
+			{Sizes: []int{96, 28, 40, 29}, Claims: []int{0, 0, 0, 0}, Pads: []int{0, 18, 6, 17}},
+			{Sizes: []int{1200, 1010, 1011, 28}, Claims: []int{0, 0, 0, 1011}, Pads: []int{0, 0, 0, 0}},
+			{Sizes: []int{200, 48}, Claims: []int{0, 200}, Pads: []int{0, 12}},
+		} {
+			if !yield(c) {
+				return
+			}
+		}
+	}, func(t *testing.T, c *seqCase, rec *Recorder) []Diff {
+		var ds []Diff
+		shorter := false
+		err := inNetns(nil, func() error {
+			src, err := packets.NewAFPacketSource()
+			if err != nil {
+				return fmt.Errorf("harness-infra: %v", err)
+			}
+			defer src.Close()
+			if err := src.SetPacketFilter(packets.PacketFilterSpec{FilterType: packets.FilterTypeICMP}); err != nil {
+				return fmt.Errorf("harness-infra: %v", err)
+			}
+			inj, err := newLoInjector()
+			if err != nil {
+				return fmt.Errorf("harness-infra: %v", err)
+			}
+			defer inj.close()
+			buf := make([]byte, 1024)
+			for i, n := range c.Sizes {
+				claim := c.Claims[i]
+				if claim == 0 {
+					claim = n
+				}
+				pkt := hostileICMP(&frameLenCase{Captured: n, Claimed: claim})
+				for j := 20; j < len(pkt); j++ {
+					pkt[j] = byte(0x40 + i) // every frame has a filling of its own
+				}
+				if i > 0 && n < c.Sizes[i-1] {
+					shorter = true
+				}
+				wire := append(append([]byte(nil), pkt...), make([]byte, c.Pads[i])...)
+				if err := inj.send(wire); err != nil {
+					return fmt.Errorf("harness-infra: inject: %v", err)
+				}
+				want := wire
+				if len(want) > len(buf)-14 {
+					want = want[:len(buf)-14]
+				}
+				for k := 0; ; k++ {
+					src.SetReadDeadline(time.Now().Add(20 * time.Millisecond))
+					m, err := src.Read(buf)
+					if err != nil {
+						if k == 0 {
+							ds = append(ds, Diff{"C01", "frame-not-delivered", fmt.Sprintf("frame #%d (%d bytes of IP packet, length field %d, %d bytes of padding) was not returned by Read: %v", i, n, claim, c.Pads[i], err)})
+						}
+						break
+					}
+					if !bytes.Equal(buf[:m], want) {
+						ds = append(ds, Diff{"C01", "read-returns-other-bytes", fmt.Sprintf("frame #%d carried %d bytes after the link header (IP packet %d, length field %d, padding %d); Read returned %d bytes%s", i, len(wire), n, claim, c.Pads[i], m, staleNote(buf[:m], want, i))})
+						break
+					}
+				}
+				if len(ds) > 0 {
+					return nil
+				}
+			}
+			return nil
+		})
+		if err != nil {
+			fmt.Println(err)
+			t.Fatalf("%v", err)
+		}
+		rec.CaseEnumerated(shorter, c, "frames:"+fmt.Sprint(len(c.Sizes)))
+		return ds
+	})
+}
+
+func staleNote(got, want []byte, i int) string {
+	if len(got) > len(want) && bytes.Equal(got[:len(want)], want) {
+		tail := got[len(want):]
+		for j := 0; j < i; j++ {
+			if bytes.IndexByte(tail, byte(0x40+j)) >= 0 {
+				return fmt.Sprintf(": the frame followed by %d bytes that belong to frame #%d, read earlier", len(tail), j)
+			}
+		}
+		return fmt.Sprintf(": the frame followed by %d bytes that did not arrive with it", len(tail))
+	}
+	return ""
+}
+
+// TestC04KernelPaddedReplies: the target's proofs of arrival are the shortest packets there are (a bare RST is 40
+// bytes, an echo reply to a probe 28..29), and links pad short frames to 60 bytes. Padded or not, the frame must
+// reach the matcher as the packet it is.
+func TestC04KernelPaddedReplies(t *testing.T) {
+	rec := NewRecorder("C04", "C04KernelPaddedReplies", "enumeration on the real kernel (private network namespace, real AF_PACKET handle): destination-form replies (RST, RST-ACK, SYN-ACK with MSS, ICMP echo reply with 0 / 1 payload bytes, over IPv4) written to the loopback device bare and padded with zeros to the Ethernet minimum (60-byte frame) and beyond, read by packets.ReadAndParse; oracle: the packet is parsed (no error) as TCP with the flags it was sent with, or as ICMP echo reply; non-trivial = padded")
+	rec.Exhaustive = true
+	type padCase struct {
+		Kind string `json:"kind"`
+		Pad  int    `json:"pad_frame_to"`
+	}
+	RunCases(t, rec, func(yield func(*padCase) bool) {
+		for _, k := range []string{"rst", "rst-ack", "syn-ack-mss", "echo-reply-0", "echo-reply-1"} {
+			for _, p := range []int{0, 60, 64} {
+				if !yield(&padCase{k, p}) {
+					return
+				}
+			}
+		}
+	}, func(t *testing.T, c *padCase, rec *Recorder) []Diff {
+		var ds []Diff
+		lo := netip.MustParseAddr("127.0.0.1")
+		var pkt []byte
+		var wantFlags byte
+		filter := packets.FilterTypeICMP
+		switch c.Kind {
+		case "rst":
+			pkt, wantFlags, filter = tcpReply(lo, 443, lo, 40000, 7, 0, TCPRst, nil), TCPRst, packets.FilterTypeNone
+		case "rst-ack":
+			pkt, wantFlags, filter = tcpReply(lo, 443, lo, 40000, 7, 9, TCPRst|TCPAck, nil), TCPRst|TCPAck, packets.FilterTypeNone
+		case "syn-ack-mss":
+			pkt, wantFlags, filter = tcpReply(lo, 443, lo, 40000, 7, 9, TCPSyn|TCPAck, []byte{2, 4, 5, 0xb4}), TCPSyn|TCPAck, packets.FilterTypeSYNACK
+		case "echo-reply-0":
+			pkt = hostileICMP(&frameLenCase{Captured: 28, Claimed: 28})
+		case "echo-reply-1":
+			pkt = hostileICMP(&frameLenCase{Captured: 29, Claimed: 29})
+		}
+		err := inNetns(nil, func() error {
+			src, err := packets.NewAFPacketSource()
+			if err != nil {
+				return fmt.Errorf("harness-infra: %v", err)
+			}
+			defer src.Close()
+			if filter != packets.FilterTypeNone {
+				if err := src.SetPacketFilter(packets.PacketFilterSpec{FilterType: filter}); err != nil {
+					return fmt.Errorf("harness-infra: %v", err)
+				}
+			}
+			inj, err := newLoInjector()
+			if err != nil {
+				return fmt.Errorf("harness-infra: %v", err)
+			}
+			defer inj.close()
+			wire := append([]byte(nil), pkt...)
+			for len(wire)+14 < c.Pad {
+				wire = append(wire, 0)
+			}
+			if err := inj.send(wire); err != nil {
+				return fmt.Errorf("harness-infra: inject: %v", err)
+			}
+			parser := packets.NewFrameParser()
+			buf := make([]byte, 1024)
+			src.SetReadDeadline(time.Now().Add(100 * time.Millisecond))
+			if err := packets.ReadAndParse(src, buf, parser); err != nil {
+				ds = append(ds, Diff{"C04", "destination-reply-lost", fmt.Sprintf("a %s (%d bytes) in a frame padded to %d bytes did not reach the matcher: %v", c.Kind, len(pkt), c.Pad, err)})
+				return nil
+			}
+			if strings.HasPrefix(c.Kind, "echo") {
+				if parser.GetTransportLayer() != layers.LayerTypeICMPv4 {
+					ds = append(ds, Diff{"C04", "destination-reply-misparsed", fmt.Sprintf("a %s in a frame padded to %d bytes was parsed as %v", c.Kind, c.Pad, parser.GetTransportLayer())})
+				}
+				return nil
+			}
+			var fl byte
+			if parser.TCP.SYN {
+				fl |= TCPSyn
+			}
+			if parser.TCP.ACK {
+				fl |= TCPAck
+			}
+			if parser.TCP.RST {
+				fl |= TCPRst
+			}
+			if parser.GetTransportLayer() != layers.LayerTypeTCP || fl != wantFlags {
+				ds = append(ds, Diff{"C04", "destination-reply-misparsed", fmt.Sprintf("a %s in a frame padded to %d bytes was parsed as %v with flags %#02x", c.Kind, c.Pad, parser.GetTransportLayer(), fl)})
+			}
+			return nil
+		})
+		if err != nil {
+			fmt.Println(err)
+			t.Fatalf("%v", err)
+		}
+		rec.CaseEnumerated(c.Pad > 0, c, "kind:"+c.Kind)
+		return ds
+	})
+}
+
+// TestC02KernelLinkHeaders: a genuine reply is recognised whatever link-layer addresses its frame carries (the
+// receiving interface's MAC address is the first thing in every frame the capture handle reads).
+func TestC02KernelLinkHeaders(t *testing.T) {
+	rec := NewRecorder("C02", "C02KernelLinkHeaders", "enumeration on the real kernel (private network namespace, real AF_PACKET handle): genuine-form replies (time-exceeded quoting a UDP probe, port-unreachable, echo reply, TCP RST; IPv4 and IPv6 time-exceeded) in frames whose destination / source MAC addresses are all-zero, locally administered (02:00:00:00:00:01, 02:42:.., 1e:00:00:00:00:02, 06:.., 0a:.., 0e:..), vendor-assigned, multicast and broadcast; oracle: packets.ReadAndParse returns the packet with the transport layer and ICMP type it was sent with; non-trivial = a non-zero MAC address")
+	rec.Exhaustive = true
+	type macCase struct {
+		Dst  string `json:"dst_mac"`
+		Kind string `json:"kind"`
+	}
+	macs := []string{"00:00:00:00:00:00", "02:00:00:00:00:01", "02:42:0a:4d:00:01", "1e:00:00:00:00:02", "06:00:00:00:00:03", "0a:00:00:00:00:04", "0e:00:00:00:00:05", "00:1b:21:aa:bb:cc", "45:00:00:54:00:00", "60:00:00:00:00:08", "ff:ff:ff:ff:ff:ff", "01:00:5e:00:00:01", "18:00:00:00:00:09", "1c:00:00:00:00:0a"}
+	RunCases(t, rec, func(yield func(*macCase) bool) {
+		for _, m := range macs {
+			for _, k := range []string{"ttl-exceeded", "port-unreach", "echo-reply", "rst", "ttl-exceeded6"} {
+				if !yield(&macCase{m, k}) {
+					return
+				}
+			}
+		}
+	}, func(t *testing.T, c *macCase, rec *Recorder) []Diff {
+		var ds []Diff
+		mac, _ := net.ParseMAC(c.Dst)
+		lo4, lo6 := netip.MustParseAddr("127.0.0.1"), netip.MustParseAddr("::1")
+		probe := rawUDP4(lo4, netip.MustParseAddr("127.0.0.9"), 40010, 33434, 41822, []byte("probe"))
+		var pkt []byte
+		wantLayer, wantTTLx, wantUnreach := layers.LayerTypeICMPv4, false, false
+		switch c.Kind {
+		case "ttl-exceeded":
+			pkt, wantTTLx = icmpError(netip.MustParseAddr("127.0.0.7"), lo4, FormSpec{}, quoteOf(probe, FormSpec{})), true
+		case "port-unreach":
+			pkt, wantUnreach = icmpError(netip.MustParseAddr("127.0.0.9"), lo4, FormSpec{Kind: "unreach-port"}, quoteOf(probe, FormSpec{})), true
+		case "echo-reply":
+			pkt = hostileICMP(&frameLenCase{Captured: 36, Claimed: 36})
+		case "rst":
+			pkt, wantLayer = tcpReply(lo4, 443, lo4, 40000, 7, 9, TCPRst|TCPAck, nil), layers.LayerTypeTCP
+		case "ttl-exceeded6":
+			p6 := (&IPPacket{V6: true, Src: lo6, Dst: netip.MustParseAddr("2001:db8::9"), TTL: 1, Proto: ProtoUDP, Payload: probe[20:]}).Encode(EncodeOpts{})
+			pkt, wantLayer, wantTTLx = icmpError(netip.MustParseAddr("2001:db8::7"), lo6, FormSpec{}, quoteOf(p6, FormSpec{})), layers.LayerTypeICMPv6, true
+		}
+		err := inNetns(nil, func() error {
+			src, err := packets.NewAFPacketSource()
+			if err != nil {
+				return fmt.Errorf("harness-infra: %v", err)
+			}
+			defer src.Close()
+			inj, err := newLoInjector()
+			if err != nil {
+				return fmt.Errorf("harness-infra: %v", err)
+			}
+			defer inj.close()
+			if err := inj.sendMAC(pkt, mac, []byte{0x00, 0x1b, 0x21, 1, 2, 3}); err != nil {
+				return fmt.Errorf("harness-infra: inject: %v", err)
+			}
+			parser := packets.NewFrameParser()
+			buf := make([]byte, 1024)
+			src.SetReadDeadline(time.Now().Add(100 * time.Millisecond))
+			if err := packets.ReadAndParse(src, buf, parser); err != nil {
+				ds = append(ds, Diff{"C02", "reply-lost-at-the-handle", fmt.Sprintf("a genuine %s in a frame addressed to %s did not reach the matcher: %v", c.Kind, c.Dst, err)})
+				return nil
+			}
+			if parser.GetTransportLayer() != wantLayer || parser.IsTTLExceeded() != wantTTLx || parser.IsDestinationUnreachable() != wantUnreach {
+				ds = append(ds, Diff{"C02", "reply-misparsed", fmt.Sprintf("a genuine %s in a frame addressed to %s was parsed as %v (ttl-exceeded=%v, unreachable=%v)", c.Kind, c.Dst, parser.GetTransportLayer(), parser.IsTTLExceeded(), parser.IsDestinationUnreachable())})
+			}
+			return nil
+		})
+		if err != nil {
+			fmt.Println(err)
+			t.Fatalf("%v", err)
+		}
+		rec.CaseEnumerated(c.Dst != "00:00:00:00:00:00", c, "kind:"+c.Kind)
 		return ds
 	})
 }
